@@ -181,15 +181,23 @@ PROPS["C16"] = dict(
 PROPS["C09"] = dict(
     level="model_checking",
     technique="bounded symbolic execution of go/ssa (gosmt) with modelled goroutines/channels/select: schedules and select choices are path decisions, scores are solver variables (z3), rank oracle",
-    explanation="real Dataset.Search with its worker goroutines and collector over harness pb.SearchClient implementations: 1-2 partitions on 2 nodes with every replica choice, 0-2 items per partition with symbolic scores, per-node failure at open or mid-stream, k in 0..2",
+    explanation="(a) real Dataset.Search with its worker goroutines and collector over harness pb.SearchClient implementations: 1-2 partitions on 2 nodes with every replica choice (and 3 partitions on 3 nodes, one worker each), 0-2 items per partition with symbolic scores, per-node failure at open or mid-stream, k in 0..2; (b) end to end: the remote nodes are real Datasets with real local partitions and indexes, the clients call their real SearchPartitions; vectors and query symbolic; the answer must be the k best of the whole dataset under the true distances, no id twice although replicated partitions hold the same items, error when the asked node does not know a partition",
     runs={
-        "quick": [dict(pkg="./storage", entry="VerifC09", bounds="maxp=2", reach=["searched", "end"])],
+        "quick": [
+            dict(pkg="./storage", entry="VerifC09", bounds="maxp=2", reach=["searched", "end"]),
+            dict(pkg="./storage", entry="VerifC09", bounds="minp=3,maxp=3,nodes=3,spread=1,items=2,mink=2,maxk=2,failmodes=1", reach=["searched", "end"]),
+            dict(pkg="./storage", entry="VerifC09Cluster", bounds="maxp=2,items=1,maxk=2", reach=["searched", "end"]),
+            dict(pkg="./storage", entry="VerifC09Cluster", bounds="maxp=1,items=2,maxk=3", reach=["searched", "end"]),
+        ],
         "thorough": [
             dict(pkg="./storage", entry="VerifC09", bounds="maxp=2,preempt=1", reach=["searched", "end"]),
             dict(pkg="./storage", entry="VerifC09", bounds="maxp=3,items=1,maxk=2,failmodes=2", reach=["searched", "end"]),
+            dict(pkg="./storage", entry="VerifC09", bounds="minp=3,maxp=3,nodes=3,spread=1,items=2,maxk=2,failmodes=1", max_seconds=3000, reach=["searched", "end"]),
+            dict(pkg="./storage", entry="VerifC09Cluster", bounds="maxp=2,items=2,maxk=2,stale=0", max_seconds=3000, reach=["searched", "end"]),
+            dict(pkg="./storage", entry="VerifC09Cluster", bounds="maxp=2,items=2,maxk=3", max_seconds=3000, reach=["searched", "end"]),
         ],
     },
-    outside="more than 3 partitions / 2 remote nodes; preemption between synchronisation operations (interleavings are explored at channel/lock/spawn granularity: blocking switches plus the stated number of voluntary preemptions); timeouts; the gRPC layer; SearchPartitions' local leg shares the collector code but is not separately driven",
+    outside="more than 3 partitions / 2 remote nodes; preemption between synchronisation operations (interleavings are explored at channel/lock/spawn granularity: blocking switches plus the stated number of voluntary preemptions); timeouts; the gRPC layer (the service handlers between client stub and Dataset.SearchPartitions only convert types)",
     assumptions=COMMON_ASSUME + ["remote search services are harness implementations of pb.SearchClient / pb.Search_SearchPartitionsClient",
                                  "goroutines are interleaved at synchronisation points only (channel ops, select, locks, go, WaitGroup)"],
     replay_attempts=300,
@@ -300,21 +308,23 @@ PROPS["C12"] = dict(
 PROPS["C14"] = dict(
     level="model_checking",
     technique="bounded symbolic execution of go/ssa (gosmt): catalogue logs, snapshot cuts, applied prefixes and restart scenarios are path decisions (no solver variables: verdict by exhaustive path enumeration of the symbolic executor)",
-    explanation="(a) real DatasetManager.process/snapshot/processSnapshot: every log of create/delete/replica-set changes over 2 dataset ids, every cut, every applied prefix: full replay, and snapshot restore + replay of the rest, must give the same catalogue, and deleted datasets' partitions must not stay watched; (b) the real Server.setup wiring executed twice on one data directory (Badger model persists per Dir) with a harness raft node that re-delivers the stored log on (re)start: acknowledged creates/deletes must be listed/absent after the restart, with and without a compacted catalogue",
+    explanation="(a) real DatasetManager.process/snapshot/processSnapshot: every log of create/delete/replica-set changes over 2 dataset ids, every cut, every applied prefix: full replay, and snapshot restore + replay of the rest, must give the same catalogue, and deleted datasets' partitions must not stay watched; (b) the real Server.setup wiring executed twice on one data directory (Badger model persists per Dir) with a harness raft node that re-delivers the stored log on (re)start: acknowledged creates/deletes must be listed/absent after the restart, with and without a compacted catalogue; (c) a cluster of 2-3 real Servers over the shared committed log and in-memory gRPC transport of the C20 harness: datasets created through any member before and after the second member joined (replication factor possibly above the member count, so the allocator adds the joiner as a replica through the catalogue), deleted through any member, leader compaction, a late third member caught up from log or snapshot, restart of any member: every live member lists the same datasets, partitions and replica assignment, acknowledged creates listed, acknowledged deletes absent",
     runs={
         "quick": [
             dict(pkg="./storage", entry="VerifC14", bounds="ops=3", reach=["end"]),
             dict(pkg=".", entry="VerifC14Restart", bounds="preempt=0", no_native=True, reach=["restarted", "end"]),
             dict(pkg=".", entry="VerifC14Restart", bounds="preempt=1,det=0,maxcreates=1,nodelete=1,nosnap=1", no_native=True, reach=["restarted", "end"]),
+            dict(pkg=".", entry="VerifC14Cluster", bounds="members=2", no_native=True, reach=["settled", "restarted", "partition-with-two-replicas", "end"]),
         ],
         "thorough": [
             dict(pkg="./storage", entry="VerifC14", bounds="ops=4,datasets=2", reach=["end"]),
             dict(pkg="./storage", entry="VerifC14", bounds="ops=3,datasets=3,det=0", reach=["end"]),
             dict(pkg=".", entry="VerifC14Restart", bounds="preempt=0", no_native=True, reach=["restarted", "end"]),
             dict(pkg=".", entry="VerifC14Restart", bounds="preempt=1,det=0,maxcreates=1", max_seconds=3000, no_native=True, reach=["restarted", "end"]),
+            dict(pkg=".", entry="VerifC14Cluster", bounds="members=3", no_native=True, max_seconds=3000, reach=["settled", "restarted", "partition-with-two-replicas", "end"]),
         ],
     },
-    outside="acknowledgement and listing across several nodes (needs real raft replication); re-creation of a deleted dataset under the same id (ids are server generated); partitions assigned to the local node in the state-machine harness (their raft loading is exercised by the restart harness and by C12)",
+    outside="what etcd/raft does between propose and commit (the cluster harness hands every member the same committed log); re-creation of a deleted dataset under the same id (ids are server generated); partitions assigned to the local node in the state-machine harness (their raft loading is exercised by the restart harness and by C12)",
     assumptions=COMMON_ASSUME + ["the etcd raft node is a harness node that commits every proposal at once, re-delivers the stored entries after the snapshot on (re)start and appends the bootstrap membership entry on StartNode",
                                  "net.Listen, grpc.NewServer and service registration are stubs; Badger is the API-level model with contents shared per Dir"],
 )
@@ -417,6 +427,9 @@ PROPS["C13"] = dict(
     assumptions=COMMON_ASSUME + ["goroutines are interleaved at lock acquisitions, channel operations, go statements and sync/atomic operations (verifrt.AtomicSwitch); code between two such points runs atomically",
                                  "at most `preempt` preemptions per schedule (a goroutine that blocks or ends does not consume the budget)"],
     replay_attempts=200000,
+    replay_timeout=45,
+    replays_per_signature=1,
+    max_native_replays=6,
     gomaxprocs1=True,
 )
 
